@@ -50,6 +50,9 @@ def build(ub, algebra_text):
     ub.emit_raw("prelude/btor2.rs", {"//@@CONST-BOOL@@": re.search(r"pub const BOOL: Type = [^;]+;", ub.src(NODES).src).group(0)})
     for b in ("zero", "one", "bv_lit"):
         ub.emit_fn(CTX, b, "stub")
+    # the line-level plumbing of the writer (which lines are written for inputs / states / init / next / outputs / bad / constraints,
+    # ids, names) is string and iterator code outside the dialect: NOT under contract; pinned by hash so that a change is reported
+    ub.pin_assumed_fn(SER, "serialize_sys", "impl<'a, W: Write> Serializer<'a, W>", "not under contract (writeln!-based emission of the system's lines); pinned by hash")
     psrc = ub.src(PARSE)
     # reader arms as stubs carrying the contracts verified in unit btor2_lower
     readers = {}
